@@ -20,7 +20,7 @@ PROPS["C07"] = {
 }
 
 PROPS["C08"] = {
-    "lean_modules": ["AxVerif.Props.C08"],
+    "lean_modules": ["AxVerif.Props.C08", "AxVerif.Props.C08Instr"],
     "gen": "C08",
     "spec_determined": True,   # byte-map refinement: every read result / write outcome is fixed by the spec
     "exhaustive": {"quick": [], "thorough": []},
